@@ -28,6 +28,12 @@ var c06pScripts = []string{
 	"position startpos;go depth 2;stop;isready / position startpos moves d2d4;go infinite;isready;stop",
 	"position startpos;go infinite;stop;stop;isready",
 	"position fen 6k1/5ppp/8/8/8/8/8/R3K3 w Q - 0 1;go infinite;stop / position startpos;go depth 1",
+	// an "infinite" search that runs out of depth by itself (iterative deepening stops at depth 100: bare kings in about half a
+	// second, a mated or stalemated root at once) and the stop arriving only afterwards ("~ms" = pause inside the round): the go
+	// is still answered by exactly one bestmove and the next round is accepted
+	"position fen 8/8/8/8/8/8/8/K6k w - - 0 1;go infinite;~1500;stop / position startpos;go depth 1",
+	"position fen rnb1kbnr/pppp1ppp/8/4p3/6Pq/5P2/PPPPP2P/RNBQKBNR w KQkq - 1 3;go infinite;~300;stop;isready / position startpos;go depth 1",
+	"position fen 7k/5Q2/6K1/8/8/8/8/8 b - - 0 1;go;~300;stop / position startpos;go infinite;stop",
 }
 
 func c06pgen(r *common.Rng, n int, shard int, out *common.Out) {
@@ -112,7 +118,25 @@ func c06pOne(bin, script string, slack time.Duration) string {
 				wantReady++
 			}
 		}
-		io.WriteString(stdin, strings.Join(ls, "\n")+"\n")
+		// "~ms" elements are pauses: the lines before one are written in one write, then the harness sleeps
+		var chunk []string
+		flush := func() {
+			if len(chunk) > 0 {
+				io.WriteString(stdin, strings.Join(chunk, "\n")+"\n")
+				chunk = nil
+			}
+		}
+		for _, l := range ls {
+			if len(l) > 1 && l[0] == '~' {
+				flush()
+				ms := 0
+				fmt.Sscanf(l[1:], "%d", &ms)
+				time.Sleep(time.Duration(ms) * time.Millisecond)
+				continue
+			}
+			chunk = append(chunk, l)
+		}
+		flush()
 		best, ready := 0, 0
 		deadline := time.After(slack)
 	wait:
